@@ -64,10 +64,26 @@ def std_shards(tier, seed, n_quick, n_thorough, **extra):
     return out
 
 
+_LEGACY_CALLS = [0]
+
+
 def set_legacy(on):
-    """Set the legacy switch through the public toggle."""
+    """Set the legacy switch - in turn through the public toggle with an
+    explicit argument, through its argument-less form, and by assigning the
+    documented module attribute (what monkeypatch fixtures and older client
+    code do); the library must honour all three alike."""
     from pamqp import encode
-    encode.support_deprecated_rabbitmq(bool(on))
+    _LEGACY_CALLS[0] += 1
+    how = _LEGACY_CALLS[0] % 3
+    if how == 0:
+        encode.support_deprecated_rabbitmq(bool(on))
+    elif how == 1:
+        if on:
+            encode.support_deprecated_rabbitmq()
+        else:
+            encode.support_deprecated_rabbitmq(False)
+    else:
+        encode.DEPRECATED_RABBITMQ_SUPPORT = bool(on)
 
 
 def lib_unmarshal(data, **kw):
